@@ -260,8 +260,36 @@ fn sanitize(s: &str) -> String {
     s.chars().map(|c| if c.is_ascii_alphanumeric() || c == '-' || c == '_' { c } else { '_' }).take(80).collect()
 }
 
+static HANG_THOROUGH: std::sync::atomic::AtomicBool = std::sync::atomic::AtomicBool::new(false);
+
+/// Watchdog verdict (runner::HANG_HOOK): a worker made no progress for VERIF_HANG_S seconds inside
+/// one sub-evaluation of run `idx`: a library call that does not return.
+fn on_hang(scn_name: &str, idx: u64) {
+    let seed = env_u64("VERIF_SEED", 1);
+    let tier = if HANG_THOROUGH.load(std::sync::atomic::Ordering::Relaxed) { Tier::Thorough } else { Tier::Quick };
+    let Some(s) = scn::all().into_iter().find(|s| s.name == scn_name) else { return };
+    let prop = s.property;
+    let (rseed, case) = runner::gen_case(&s, seed, tier, idx);
+    let sig = format!("{prop}:non-termination");
+    let hang_s = env_u64("VERIF_HANG_S", 180);
+    let path = out_root().join("replays").join(prop).join(format!("{}-{}-{}.json", sanitize(&sig), rseed, profile()));
+    write_json(&path, &json!({
+        "property": prop, "scenario": s.name, "profile": profile(), "signature": sig, "hang": true,
+        "thorough": tier == Tier::Thorough,
+        "master_seed": seed, "seed": rseed, "run_index": idx, "run_count": 1, "case": case,
+        "detail": format!("run index {idx} of this scenario made no progress for {hang_s} s inside one library call (sub-evaluations normally take milliseconds): a decoder or encoder entry point does not terminate on this case"),
+    }));
+    println!("VIOLATION property={prop} replay={}", path.display());
+    println!("  signature: {sig}");
+    println!("  run_index={idx} seed={rseed} scenario={} profile={}: no progress for {hang_s} s inside one library call", s.name, profile());
+    write_min_evidence(prop, tier, 1, "non-termination detected by the watchdog");
+    std::process::exit(1);
+}
+
 fn cmd_check(prop: &str, tier: Tier, part: bool) -> i32 {
     let started = Instant::now();
+    HANG_THOROUGH.store(tier == Tier::Thorough, std::sync::atomic::Ordering::Relaxed);
+    let _ = runner::HANG_HOOK.set(on_hang);
     let Some(def) = props().into_iter().find(|p| p.id == prop) else {
         eprintln!("harness error: unknown or unclaimed property {prop}");
         return 2;
@@ -576,6 +604,45 @@ fn cmd_replay(path: &Path, verify: bool) -> i32 {
             return 2;
         }
     };
+    if j["hang"].as_bool() == Some(true) {
+        // re-run that one run index in a child process; reproduced if it is still running after
+        // VERIF_HANG_S seconds
+        let scn_name = j["scenario"].as_str().unwrap_or("");
+        let idx = j["run_index"].as_u64().unwrap_or(0).to_string();
+        let ms = j["master_seed"].as_u64().unwrap_or(1).to_string();
+        let exe = std::env::current_exe().unwrap();
+        let mut c = Command::new(exe);
+        c.args(["probe", scn_name, &idx, "1", &ms]);
+        if j["thorough"].as_bool() == Some(true) {
+            c.arg("--thorough");
+        }
+        let Ok(mut child) = c.spawn() else {
+            eprintln!("harness error: cannot start the probe process");
+            return 2;
+        };
+        let deadline = Instant::now() + Duration::from_secs(env_u64("VERIF_HANG_S", 180));
+        loop {
+            match child.try_wait() {
+                Ok(Some(_)) => {
+                    if !verify {
+                        println!("not reproduced on this tree");
+                    }
+                    return 0;
+                }
+                Ok(None) if Instant::now() >= deadline => {
+                    let _ = child.kill();
+                    let _ = child.wait();
+                    if !verify {
+                        println!("VIOLATION property={} replay={}", case.property, path.display());
+                        println!("  signature: {}", j["signature"].as_str().unwrap_or(""));
+                    }
+                    return 1;
+                }
+                Ok(None) => std::thread::sleep(Duration::from_millis(100)),
+                Err(_) => return 2,
+            }
+        }
+    }
     if j["miri"].as_bool() == Some(true) || j["process_death"].as_bool() == Some(true) {
         let scn_name = j["scenario"].as_str().unwrap_or("");
         let idx = j["run_index"].as_u64().unwrap_or(0).to_string();
